@@ -69,7 +69,11 @@ class MessageHandler(Virtual):
         if match is None:
             return False
 
-        message_num = int(match.groups()[0])
+        try:
+            message_num = int(match.groups()[0])
+        except ValueError:
+            # int() refuses digit strings beyond sys.get_int_max_str_digits()
+            return False
         if message_num < 1:
             return False
 
